@@ -40,7 +40,9 @@ template <class P> struct H {
         V3 w(c(g.signedMag(0.1, 10)), c(g.signedMag(0.1, 10)), c(g.signedMag(0.1, 10)));
         V3 wd(c(g.signedMag(0.1, 10)), c(g.signedMag(0.1, 10)), c(g.signedMag(0.1, 10)));
         V3 qd(c(g.signedMag(0.1, 10)), c(g.signedMag(0.1, 10)), c(g.signedMag(0.1, 10)));
+        if (g.below(5) == 0) { int z = g.below(3); w[z] = 0; wd[(z + 1) % 3] = 0; qd[(z + 2) % 3] = 0; vh::D(fn("euler") + ".zerocomponent"); }
         const P c1 = std::cos(q[1]);
+        vh::D(fn("euler") + (c1 < 0 ? ".cosq1_negative" : ".cosq1_positive"));
         const double cond = 1.0 / std::fabs((double)c1), cond2 = cond * cond;
         V3 cq(std::cos(q[0]), c1, std::cos(q[2])), sq(std::sin(q[0]), std::sin(q[1]), std::sin(q[2]));
         const std::string k = "." + cls;
@@ -51,7 +53,7 @@ template <class P> struct H {
         M33 NDB = Rot::calcNDotForBodyXYZInBodyFrame(q, qd), NDP = Rot::calcNDotForBodyXYZInParentFrame(q, qd);
         struct { const char* nm; const M33* m; bool hasQd; double cnd; } mats[6] = {
             {"NB", &NB, false, cond}, {"NP", &NP, false, cond}, {"NInvB", &NIB, false, 1}, {"NInvP", &NIP, false, 1},
-            {"NDotB", &NDB, true, cond2}, {"NDotP", &NDP, true, cond2}};
+            {"NDotB", &NDB, true, cond}, {"NDotP", &NDP, true, cond}};
         for (auto& e : mats) {
             vh::Line in = vh::I(fn(e.nm)); putV<3>(in, q); if (e.hasQd) putV<3>(in, qd); in.emit(); tol(isF() ? e.cnd : 1);
             vh::Line o = vh::O(fn(e.nm)); putM(o, *e.m); o.emit();
@@ -77,8 +79,11 @@ template <class P> struct H {
         V3 a1 = Rot::multiplyByBodyXYZ_N_P(cxy, sxy, oo, w), a2 = Rot::multiplyByBodyXYZ_NT_P(cxy, sxy, oo, w);
         V3 a3 = Rot::multiplyByBodyXYZ_NInv_P(cxy, sxy, w), a4 = Rot::multiplyByBodyXYZ_NInvT_P(cxy, sxy, w);
         { vh::Line in = vh::I(fn("mulNP")); in.d(q[0]).d(q[1]); putV<3>(in, w); in.emit(); tol(isF() ? cond : 1);
-          vh::Line o = vh::O(fn("mulNP")); putV<3>(o, a1); putV<3>(o, a2); putV<3>(o, a3); putV<3>(o, a4); o.emit();
+          vh::Line o = vh::O(fn("mulNP")); putV<3>(o, a1); putV<3>(o, a2); o.emit();
           vh::D(fn("mulNP") + k); }
+        { vh::Line in = vh::I(fn("mulNInvP")); in.d(q[0]).d(q[1]); putV<3>(in, w); in.emit(); tol();
+          vh::Line o = vh::O(fn("mulNInvP")); putV<3>(o, a3); putV<3>(o, a4); o.emit();
+          vh::D(fn("mulNInvP") + k); }
         double ws = (double)w.norm();
         vh::P("structured_product_equals_dense", fn("mulNP") + k + ".N", (double)(a1 - NP * w).norm() / (ws * sc), 64 * eps());
         vh::P("structured_product_equals_dense", fn("mulNP") + k + ".NT", (double)(a2 - ~NP * w).norm() / (ws * sc), 64 * eps());
@@ -96,9 +101,9 @@ template <class P> struct H {
           vh::Line o = vh::O(fn("wBtoQd")); putV<3>(o, qdB); o.emit(); vh::D(fn("wBtoQd") + k); }
         { vh::Line in = vh::I(fn("qdToWB")); putV<3>(in, q); putV<3>(in, qd); in.emit(); tol();
           vh::Line o = vh::O(fn("qdToWB")); putV<3>(o, wFromQd); o.emit(); vh::D(fn("qdToWB") + k); }
-        { vh::Line in = vh::I(fn("wdBtoQdd")); putV<3>(in, q); putV<3>(in, w); putV<3>(in, wd); in.emit(); tol(isF() ? cond2 * cond : 1);
+        { vh::Line in = vh::I(fn("wdBtoQdd")); putV<3>(in, q); putV<3>(in, w); putV<3>(in, wd); in.emit(); tol(isF() ? cond : 1);
           vh::Line o = vh::O(fn("wdBtoQdd")); putV<3>(o, qddB); o.emit(); vh::D(fn("wdBtoQdd") + k); }
-        { vh::Line in = vh::I(fn("aPtoQdd")); in.d(q[0]).d(q[1]); putV<3>(in, qd); putV<3>(in, wd); in.emit(); tol(isF() ? cond2 : 1);
+        { vh::Line in = vh::I(fn("aPtoQdd")); in.d(q[0]).d(q[1]); putV<3>(in, qd); putV<3>(in, wd); in.emit(); tol(isF() ? cond : 1);
           vh::Line o = vh::O(fn("aPtoQdd")); putV<3>(o, qddP); o.emit(); vh::D(fn("aPtoQdd") + k); }
         vh::P("conversions_are_inverse", fn("wBtoQd") + k + ".inv", (double)(wBack - w).norm() / (ws * sc), 64 * eps());
 
@@ -110,14 +115,14 @@ template <class P> struct H {
           vh::Line o = vh::O(fn("w321")); putV<3>(o, qd321); o.emit(); vh::D(fn("w321") + k); }
         { vh::Line in = vh::I(fn("qd321")); putV<3>(in, q); putV<3>(in, qd); in.emit(); tol();
           vh::Line o = vh::O(fn("qd321")); putV<3>(o, w321); o.emit(); vh::D(fn("qd321") + k); }
-        { vh::Line in = vh::I(fn("wd321")); putV<3>(in, q); putV<3>(in, w); putV<3>(in, wd); in.emit(); tol(isF() ? cond2 * cond : 1);
+        { vh::Line in = vh::I(fn("wd321")); putV<3>(in, q); putV<3>(in, w); putV<3>(in, wd); in.emit(); tol(isF() ? cond : 1);
           vh::Line o = vh::O(fn("wd321")); putV<3>(o, qdd321); o.emit(); vh::D(fn("wd321") + k); }
         vh::P("conversions_are_inverse", fn("w321") + k + ".inv", (double)(Rot::convertBodyFixed321DotToAngVel(q, qd321) - w).norm() / (ws * sc), 64 * eps());
 
         if (isF() || cls != "generic") return;   // finite differences need h << distance to the singularity
         // ---- finite differences (double): the helpers are true time derivatives
         const double h = 1e-5;
-        const double fdTol = 1e-7 * cond2 * cond;   // O(h^2) truncation with third derivatives ~ cond^3, plus rounding eps/h
+        const double fdTol = 2e-8 * cond2 * cond;   // O(h^2) truncation with third derivatives ~ cond^3, plus rounding eps/h (measured <= 7.5e-9 at cond 1)
         {   // omega in the parent: qdot = N_P w,  Rdot = [w]x R
             V3 qp = q + c(h) * a1, qm = q - c(h) * a1;
             M33 Rd = (Rxyz(qp).asMat33() - Rxyz(qm).asMat33()) / c(2 * h);
@@ -174,6 +179,10 @@ template <class P> struct H {
         { vh::Line in = vh::I(fn("qdQToW")); putV<4>(in, q); putV<4>(in, qdIn); in.emit(); tol(); vh::Line o = vh::O(fn("qdQToW")); putV<3>(o, wq); o.emit(); vh::D(fn("qdQToW") + k); }
         { vh::Line in = vh::I(fn("wdToQddQ")); putV<4>(in, q); putV<3>(in, w); putV<3>(in, b); in.emit(); tol(); vh::Line o = vh::O(fn("wdToQddQ")); putV<4>(o, qdd); o.emit(); vh::D(fn("wdToQddQ") + k); }
         double n2 = (double)q.normSqr(), ws = (double)w.norm();
+        vh::D(fn("quat") + (n2 < 0.5 ? ".normsq_lt_half" : n2 > 2 ? ".normsq_gt_2" : ".normsq_near_1"));
+        // algebraic form of the second-derivative helper, valid for any |q|: N(q) b - |w|^2/4 q
+        { V4 want = N * b - P(0.25) * w.normSqr() * q;
+          vh::P("qdotdot_quaternion_equals_Nb_minus_quarter_wsq_q", fn("wdToQddQ") + k + ".alg", (double)(qdd - want).norm() / std::max(1.0, (double)want.norm()), 64 * eps()); }
         Mat<3, 3, P> NIN = NI * N;
         vh::P("NInv_times_N_is_normsq_identity", fn("NInvQ") + k + ".NInvN", maxAbs(NIN - M33(c(n2))) / std::max(1.0, n2), 64 * eps());
         vh::P("conversions_are_inverse", fn("wToQdQ") + k + ".inv", (double)(Rot::convertQuaternionDotToAngVel(q, qd) - c(n2) * w).norm() / (ws * std::max(1.0, n2)), 64 * eps());
@@ -224,6 +233,15 @@ static void replay() {
         else if (b == "wToQdQ" && v.size() == 7) { Vec4 r = R::convertAngVelToQuaternionDot(Vec4(v[0], v[1], v[2], v[3]), Vec3(v[4], v[5], v[6])); for (int i = 0; i < 4; ++i) o.d(r[i]); }
         else if (b == "qdQToW" && v.size() == 8) V(R::convertQuaternionDotToAngVel(Vec4(v[0], v[1], v[2], v[3]), Vec4(v[4], v[5], v[6], v[7])));
         else if (b == "wdToQddQ" && v.size() == 10) { Vec4 r = R::convertAngVelDotToQuaternionDotDot(Vec4(v[0], v[1], v[2], v[3]), Vec3(v[4], v[5], v[6]), Vec3(v[7], v[8], v[9])); for (int i = 0; i < 4; ++i) o.d(r[i]); }
+        else if (b == "mulNP" && v.size() == 5) { Vec2 cxy(std::cos(v[0]), std::cos(v[1])), sxy(std::sin(v[0]), std::sin(v[1])); Real oo = 1 / cxy[1]; Vec3 w(v[2], v[3], v[4]);
+            V(R::multiplyByBodyXYZ_N_P(cxy, sxy, oo, w)); V(R::multiplyByBodyXYZ_NT_P(cxy, sxy, oo, w)); }
+        else if (b == "mulNInvP" && v.size() == 5) { Vec2 cxy(std::cos(v[0]), std::cos(v[1])), sxy(std::sin(v[0]), std::sin(v[1])); Vec3 w(v[2], v[3], v[4]);
+            V(R::multiplyByBodyXYZ_NInv_P(cxy, sxy, w)); V(R::multiplyByBodyXYZ_NInvT_P(cxy, sxy, w)); }
+        else if (b == "aPtoQdd" && v.size() == 8) { Vec2 cxy(std::cos(v[0]), std::cos(v[1])), sxy(std::sin(v[0]), std::sin(v[1]));
+            V(R::convertAngAccInParentToBodyXYZDotDot(cxy, sxy, 1 / cxy[1], Vec3(v[2], v[3], v[4]), Vec3(v[5], v[6], v[7]))); }
+        else if ((b == "NQ" || b == "NDotQ") && v.size() == 4) { Mat43 m = b == "NQ" ? R::calcUnnormalizedNForQuaternion(Vec4(v[0], v[1], v[2], v[3])) : R::calcUnnormalizedNDotForQuaternion(Vec4(v[0], v[1], v[2], v[3]));
+            for (int i = 0; i < 4; ++i) for (int j = 0; j < 3; ++j) o.d(m(i, j)); }
+        else if (b == "NInvQ" && v.size() == 4) { Mat34 m = R::calcUnnormalizedNInvForQuaternion(Vec4(v[0], v[1], v[2], v[3])); for (int i = 0; i < 3; ++i) for (int j = 0; j < 4; ++j) o.d(m(i, j)); }
         else o.s("UNSUPPORTED");
         o.emit();
     }
@@ -236,9 +254,10 @@ int main(int argc, char** argv) {
     for (long k = 0; k < args.n; ++k) {
         bool F = g.below(4) == 0;
         int s = g.below(10);
-        if (s <= 5) { if (F) H<float>::eulerCase(g, "generic", 0.2); else H<double>::eulerCase(g, "generic", 0.2); }
-        else if (s == 6) { if (F) H<float>::eulerCase(g, "nearsingular", 0); else H<double>::eulerCase(g, "nearsingular", 0); }
-        else if (s <= 8) { if (F) H<float>::quatCase(g, "unit"); else H<double>::quatCase(g, "unit"); }
+        // guaranteed shares: 50 % generic Euler, 10 % near-singular Euler, 20 % unit quaternions, 20 % un-normalised quaternions
+        if (s <= 4) { if (F) H<float>::eulerCase(g, "generic", 0.2); else H<double>::eulerCase(g, "generic", 0.2); }
+        else if (s == 5) { if (F) H<float>::eulerCase(g, "nearsingular", 0); else H<double>::eulerCase(g, "nearsingular", 0); }
+        else if (s <= 7) { if (F) H<float>::quatCase(g, "unit"); else H<double>::quatCase(g, "unit"); }
         else { if (F) H<float>::quatCase(g, "unnormalised"); else H<double>::quatCase(g, "unnormalised"); }
     }
     return 0;
